@@ -216,6 +216,8 @@ def streams_for(prop, seed, tier, boost=1):
         add('huff-alignment', genmod.huff_alignment_catalogue())
         pw = genmod.huff_power_length_strings(17 if T else 15)
         add('huff-power-lengths', ['hrt ' + genmod.hx(x) for x in pw] + ['henc ' + genmod.hx(x) for x in pw[:40]])
+        zc = genmod.zero_carry_huffman_strings(70000 if T else 34000)
+        add('huff-zero-carry', ['hrt ' + genmod.hx(x) for x in zc])
         add('hrt-large', ['hrt ' + genmod.hx(bytes(0x80 + (j * 7) % 128 for j in range(14000))),
                           'hrt ' + genmod.hx(bytes(g.rnd.randrange(256) for _ in range(29000))),
                           'hrt ' + genmod.hx(b'plain ascii text ' * 3300)])
@@ -275,6 +277,8 @@ def streams_for(prop, seed, tier, boost=1):
         add('failed-then-fresh', genmod.failed_then_fresh_stream())
         add('limits-interleaved', genmod.limit_interleaved_stream())
         add('utf8-tails', genmod.utf8_tail_stream()[0])
+        add('static-entry-limits', genmod.static_entry_limit_stream())
+        add('updates-then-never-indexed', genmod.updates_then_never_indexed_stream())
         add('huffman-expanding-near-table-size', genmod.huffman_expanding_table_stream())
     elif prop in ('C04', 'C05'):
         add('deccat', G('deccat').dec_catalogue())
@@ -311,6 +315,8 @@ def streams_for(prop, seed, tier, boost=1):
         add('dec-update-runs', genmod.dec_updates_stream(G('du'), n=10 * k))
         add('dec-setters', genmod.dec_setter_stream(G('ds'), n=8 * k))
         add('raise-then-reference', genmod.raise_then_reference_stream())
+        add('static-entry-limits', genmod.static_entry_limit_stream())
+        add('updates-then-never-indexed', genmod.updates_then_never_indexed_stream())
         add('limits-interleaved', genmod.limit_interleaved_stream())
         add('failed-then-fresh', genmod.failed_then_fresh_stream())
     elif prop in ('C03', 'C19', 'C15'):
@@ -333,6 +339,8 @@ def streams_for(prop, seed, tier, boost=1):
             add('conn', G('conn').conn_stream(n_conn=15 * k))
             add('deccat', G('deccat').dec_catalogue())
             add('never-indexed-utf8', genmod.never_indexed_utf8_stream())
+            add('updates-then-never-indexed', genmod.updates_then_never_indexed_stream())
+        add('name-index-boundaries', genmod.name_index_boundary_stream())
         ops_, groups_ = genmod.both_sensitivities_stream(G('bs'), n=6 * k)
         add('both-sensitivities', ops_)
     elif prop == 'C09':
@@ -356,6 +364,9 @@ def streams_for(prop, seed, tier, boost=1):
         add('enc-big-tables', genmod.big_table_encoder_stream(G('bt')))
         add('conn-big-binary', genmod.big_binary_conn_stream(G('bb')))
         add('conn-power-lengths', genmod.power_length_conn_stream(full=T))
+        add('name-index-boundaries', genmod.name_index_boundary_stream())
+        zc = genmod.zero_carry_huffman_strings(70000 if T else 34000)
+        add('conn-zero-carry', ['enew 35001', 'dnew 35001 100000000'] + [o for x in zc for o in ('eenc 35001 1 %s:%s:0' % (genmod.hx(b'z'), genmod.hx(x)), 'pipe 35001 1 35001')])
         add('coincidences', genmod.coincidence_stream(G('co')))
         add('call-orders', genmod.call_order_stream())
         add('conn-debuglog', genmod.with_debug_log(G('conn2').conn_stream(n_conn=10 * k, start_id=700)))
